@@ -4,8 +4,10 @@
 //! for validation against the TLA+ specification (impl -> spec).
 
 mod api;
+mod cli;
 mod events;
 mod gen;
+mod hostile;
 mod merge;
 mod parse;
 mod proj;
@@ -32,6 +34,10 @@ fn main() {
         "parser-replay" => parse::replay(&args),
         "schema-record" => parse::record_schema(&args),
         "docs-trace" => parse::docs_trace(&args),
+        "cases-docs" => parse::cases_docs(&args),
+        "cli-replay" => cli::replay(&args),
+        "hostile" => hostile::run(&args),
+        "hostile-replay" => hostile::replay(&args),
         "api-replay" => api::replay(&args),
         "api-record" => api::record(&args),
         "c11-rewrite" => rewrite::c11(&args),
